@@ -690,8 +690,13 @@ inline void run(Rng& r, Ctx& c)
     }
     if (!minimalDies && !before.empty()) before.pop_back(); // the final getter returned: its name is the last 't' line
     if (!minimalDies) key = "C10:incremental:KrigingCalcul:";
-    key += classify(before, f[0], f[1], f[2], f[3]);
-    if (cf.dual) key += ":dual";
+    {
+      std::string cls = classify(before, f[0], f[1], f[2], f[3]);
+      // a death after a failed request is one more face of the half-built memos: one key whatever was asked
+      if (minimalDies && cls.find("half-built-after-failed:") == 0) cls = "half-built-after-failed-request";
+      key += cls;
+    }
+    if (cf.dual && !minimalDies) key += ":dual";
     what = std::string(minimalDies ? "dies in " : "mismatch of ") + opName(fin) + " after minimal history ";
     for (auto& b : before) what += b + ",";
   }
